@@ -673,9 +673,16 @@ def tpl_T7(sim, tape, viol, keys, desc, cb, job):
 
     obs = []
 
+    lookups = []
+
     def observer(task):
         for _ in range(2):
             obs.append(outcome(lambda s: optree.tree_flatten([inst], namespace=ns, none_is_leaf=bool(len(obs) % 2)), None))
+            # the Python-visible registry for the very key that is being unregistered / registered: at any instant the
+            # answer is the old entry, the new entry or None — and a one-level flatten either works or says "leaf"
+            lookups.append(outcome(lambda s: optree.register_pytree_node.get(cls, namespace=ns), None))
+            lookups.append(outcome(lambda s: optree.tree_flatten_one_level(inst, namespace=ns), None))
+            lookups.append(outcome(lambda s: cls in optree.register_pytree_node.get(namespace=ns), None))
 
     order = tape.draw(2, 't7-order')
     for name, fn in ((('unregister', unreg), ('register', reg)) if order == 0 else (('register', reg), ('unregister', unreg))):
@@ -712,6 +719,12 @@ def tpl_T7(sim, tape, viol, keys, desc, cb, job):
         for o in obs:
             if o[0] == 'exc' and not isinstance(o[1], EngineWouldBlock):
                 viol('not-sequential', 'T7:observer', 'observer flatten raised %s' % describe_outcome(o))
+        for o in lookups:
+            if o[0] == 'exc' and not isinstance(o[1], EngineWouldBlock):
+                # allowed: ValueError "Cannot flatten leaf-type" from tree_flatten_one_level while the type is unregistered
+                # (only for classes that are leaves then), nothing else
+                if not (isinstance(o[1], ValueError) and 'leaf' in str(o[1]).lower()):
+                    viol('not-sequential', 'T7:registry-lookup', 'a registry lookup overlapping unregister / register of the same key raised %s' % describe_outcome(o))
         keys.add('T7|%s' % (pair,))
 
     def cleanup():
